@@ -1079,6 +1079,31 @@ func vxConsumeRows(iter *Iter, r *cqlspec.Response, consumer int, k *vstats.Case
 			}
 			dests = vxSkipSome(dests, i, k)
 			args := vxDestArgs(dests)
+			if i == 1 && len(r.Rows) >= 3 && len(args) > 0 {
+				// "the row is invalidated until the next call to Next": a Scan that fails (one destination too few)
+				// costs this row only, the rows behind it are still delivered
+				// (either too few destinations, or a first destination no CQL value fits into)
+				var serr error
+				if len(r.Rows)%2 == 0 {
+					serr = sc.Scan(args[:len(args)-1]...)
+					if serr == nil {
+						return fmt.Errorf("Scanner.Scan row %d with %d destinations for %d columns returned no error", i, len(args)-1, len(args))
+					}
+				} else {
+					bad := append([]interface{}{}, args...)
+					for j := range bad {
+						if bad[j] != nil {
+							bad[j] = new(chan int)
+							break
+						}
+					}
+					serr = sc.Scan(bad...)
+				}
+				if k != nil && serr != nil {
+					k.Class("a failed Scanner.Scan in the middle of the rows")
+				}
+				continue
+			}
 			if err := sc.Scan(args...); err != nil {
 				return fmt.Errorf("Scanner.Scan row %d: %v", i, err)
 			}
